@@ -151,6 +151,7 @@ def run(ctx):
     o2, m2 = rt.run_recorded(ctx, list(rt.FUNCS), ctx.n(30, 500))
     outs = run_model(ops + o2)
     rt.compare_recorded(ctx, o2, m2, outs[len(ops):], "observed-statistic-and-dist-model-vs-impl")
+    rt.nan_strat_block(ctx, ctx.n(60, 800))      # NaN-coded non-responders (np.nanmean), Model/Nan.lean
     outs = outs[:len(ops)]
     agree = True
     for o, (det, pimpl, site) in zip(outs, meta):
